@@ -14,7 +14,7 @@ func init() {
 		Level: "other",
 		Explanation: "Structural necessary conditions of the world-lock discipline, decided on every path of /repo's current source: " +
 			"(R1) on every path from an exported entry point to a store into lock-guarded structure (rows, capacity, table set, target flags, entity pool) a lock test whose locked outcome panics comes first, " +
-			"with the registry-growth idiom checked separately (R1b); (R2) every removal-event dispatch and every user callback invoked in a loop over table rows lies between an acquire and its release; " +
+			"with the registry-growth idiom checked separately (R1b); (R2) every removal-event dispatch, every event dispatched row by row in a loop (batch operations) and every user callback invoked in a loop over table rows lies between an acquire and its release; " +
 			"(R3) every acquired lock token is released exactly once on every normal path; (R4) query Close is idempotent and every path on which Next reports exhaustion passes Close; (R5) unlock tests the bit before clearing it. " +
 			"Not decided: bit-pool arithmetic for all recycle orders, the 64-query limit, behaviour of reads under lock.",
 		TrustedBase: []string{"go/packages + go/types type checking of /repo", "go/cfg control-flow graphs", "anchor table of DESIGN.md §2.3 (field classes)", "callee resolution through types (no name matching)"},
